@@ -25,12 +25,14 @@ for p in props:
         technique=t['technique']))
 man = dict(
     version=1,
-    setup_cmd='/venv/bin/python -c "import hypothesis" 2>/dev/null || /venv/bin/pip install --no-index --find-links /opt/veriftools/wheels hypothesis; PYTHONPATH=/repo/src:. /venv/bin/python -c "import pv.runner, pv.core, pv.codec, hypothesis, pyg_base; print(\'pv ready, hypothesis\', hypothesis.__version__)"',
+    setup_cmd='/venv/bin/python -c "import hypothesis" 2>/dev/null || /venv/bin/pip install --no-index --find-links /opt/veriftools/wheels hypothesis; '
+              'PYTHONPATH=.deps /venv/bin/python -c "import atheris" 2>/dev/null || /venv/bin/pip install -q --no-index --find-links /opt/veriftools/wheels --target .deps atheris || echo "atheris not installed: the coverage-guided stage of the thorough tier will be skipped"; '
+              'PYTHONPATH=/repo/src:. /venv/bin/python -c "import pv.runner, pv.core, pv.codec, hypothesis, pyg_base; print(\'pv ready, hypothesis\', hypothesis.__version__)"',
     hooks=dict(guard='PYG_BASE_VERIF', enable='no source hooks are needed: every observation point is public API; ./check exports PYG_BASE_VERIF=1 (unused by the library) and imports pyg_base from /repo/src of the working tree',
                baseline_off_cmd='cd /repo && /venv/bin/python -m pytest -ra -q -p no:cacheprovider --timeout=900 --continue-on-collection-errors',
                source_commits=[], add_only=True),
     engines=[dict(name='pv', path='pv/', serves_properties=[c['property_id'] for c in checks],
-                  kind_free_text='property-based testing with Hypothesis (plain-data spec generators -> builder -> independent oracle), rule-based state machines for histories, complete enumeration of finite sub-domains, fuel guard for termination; 16-way process sharding')],
+                  kind_free_text='property-based testing with Hypothesis (plain-data spec generators -> builder -> independent oracle), rule-based state machines for histories, complete enumeration of finite sub-domains, fuel guard for termination; 16-way process sharding; thorough tier: the same generators and oracles also driven by coverage-guided fuzzing (atheris / libFuzzer feeding Hypothesis fuzz_one_input, python-level coverage of pyg_base)')],
     checks=checks,
     notes='All checks: ./check <ID> --tier quick|thorough; VERIF_SEED selects the hypothesis seed; exit 0 held / 1 VIOLATION / 2 harness error. Known findings and fixed defects: known_findings.json. Seeded mutants: seeded/.',
     not_applicable=na)
